@@ -20,11 +20,12 @@ MODEL_FILES = ('Heap.v (memory model, allocator ledger), CoreDefs.v (cJSON_Delet
 RULE = ('small JSON documents (depth <= 3, at most 8 members per container, at most 40 nodes) over keys {"", "/", "~", "~0", "~1", "a/b", "m~n", "0", "01", "a", "A", "foo", "Foo"} (distinct per object), '
         'both case modes; uapply: the RFC-shaped single operations, operation sequences and junk patch documents of C16 (valid and invalid patches); umerge: patches derived from the target '
         '(members nulled / replaced / added / nested), independent patches, NULL target, non-object operands; ugenmerge / ugenpatch / ucompare: a document against a mutation, a member permutation, '
-        'an independent document and itself; ufind: every node of the document and a node outside it; ugetptr: the pointer of every node, damaged and junk pointer texts; usort: objects. '
+        'an independent document and itself; ufind: every node of the document and a node outside it; ugetptr: the pointer of every node, damaged and junk pointer texts; usort: objects; NULL operands; wide arrays (multi-digit indices) and keys of 63..257 bytes; a sample with constant keys (caller memory); '
+        'two streams outside JSON: duplicate names / NaN / infinities, and malformed trees (string without valuestring, member without name, raw, invalid types) where a NULL dereference of the model must coincide with a crash of the library. '
         'Compared: result, every operand tree afterwards (order of members included), live library blocks after the call and after deleting everything. '
         'verdict: no crash, no double / foreign free, sibling chains healthy, zero live blocks at the end; non-trivial = the model produced a result (no MODELERR) and the case did not crash')
 ASSUMPTIONS = ['C locale (tolower)', 'allocation never fails (the oracle of the extracted model is nofail; the tracking allocator injects no failure)',
-               'C-string keys and values (no embedded NUL), finite numbers, distinct keys per object',
+               'C-string keys and values (no embedded NUL); the main streams use finite numbers and distinct keys per object (streams tagged dupkeys-nonfinite / malformed leave that domain on purpose)',
                'contents of fresh memory are 0xA5 bytes on both sides (not observable: only C strings are printed)']
 
 MAX_NODES = 40
@@ -70,7 +71,13 @@ FIXED_DOCS = [Obj([('foo', 1), ('Foo', 2), ('a/b', [10, 11, 12]), ('m~n', Obj([(
               [Obj([('a', 1)]), Obj([('b', 2)]), [1, 2, 3]], Obj([('b', 1), ('a', 2)]), Obj([('a', Obj([('b', Obj([('c', 1)]))]))]), [], Obj(), 5, 'str', None, True,
               Obj([('arr', [10, 11, 12]), ('0', 'zero'), ('01', 'zero-one')]), Obj([('z', 1), ('Z', 2), ('a', [Obj([('y', 1), ('x', [])])]), ('A', None)])]
 
-def generate(ctx):
+# which case kinds exercise which property's code (for `generate(ctx, kinds=KINDS_OF['C16'])` from a property module)
+KINDS_OF = {'C12': ('ucompare',), 'C15': ('ufind', 'ugetptr'), 'C16': ('uapply',), 'C17': ('ugenpatch',), 'C18': ('umerge', 'ugenmerge'), 'C19': ('usort', 'ugenmerge', 'ugenpatch')}
+
+def generate(ctx, kinds=None):
+    return [c for c in generate_all(ctx) if kinds is None or c.info['kind'] in kinds]
+
+def generate_all(ctx):
     """every case carries info['area'] = 'uheap', info['kind'] and tags (kind first), so that a property with AREAS = [<its area>, 'uheap'] can append these
     cases to its own and route project / verdict / nontrivial by c.info.get('area')"""
     from . import C16
@@ -130,13 +137,105 @@ def generate(ctx):
         if isinstance(doc, (list, Obj)) and (not quick or rng.random() < 0.6):
             cs = csflag(rng, 0.5)
             cases.append(mk('usort', [cs], [G.shuffled(copy.deepcopy(doc), rng)], cstag(cs)))
+    # ---- NULL operands (the public entry points accept them), both positions
+    d0 = Obj([('b', 1), ('a', [1, Obj([('y', None), ('x', 2)])])]); p0 = [G.mk_op('add', '/c', 1)]
+    for cs in (0, 1):
+        for kind, x, y in (('umerge', Ellipsis, Ellipsis), ('umerge', d0, Ellipsis), ('umerge', Ellipsis, d0), ('umerge', Ellipsis, 5),
+                           ('ugenmerge', Ellipsis, d0), ('ugenmerge', d0, Ellipsis), ('ugenmerge', Ellipsis, Ellipsis), ('ugenmerge', 5, Ellipsis),
+                           ('ugenpatch', Ellipsis, d0), ('ugenpatch', d0, Ellipsis), ('ugenpatch', Ellipsis, Ellipsis),
+                           ('uapply', Ellipsis, p0), ('uapply', d0, Ellipsis), ('uapply', Ellipsis, Ellipsis), ('uapply', Ellipsis, []),
+                           ('ucompare', Ellipsis, d0), ('ucompare', d0, Ellipsis), ('ucompare', Ellipsis, Ellipsis)):
+            cases.append(mk(kind, [cs], [x, y], ['null-operand'] + cstag(cs)))
+        cases.append(mk('usort', [cs], [Ellipsis], ['null-operand'] + cstag(cs)))
+    # ---- array indices with several digits, long keys / pointer texts (lengths around 64 / 128 / 256)
+    wide = Obj([('l', list(range(12))), ('o', Obj([('k', [Obj([('deep', 1)])] * 11)]))])
+    for p in all_paths(wide): cases.append(mk('ufind', [pstr(p)], [wide], ['wide', 'depth=%d' % len(p)]))
+    for t in ('/l/10', '/l/11', '/l/12', '/l/010', '/o/k/10/deep', '/o/k/9/deep', '/o/k/11/deep', '/l/9x'):
+        cases.append(mk('ugetptr', [1, hx(t.encode())], [wide], ['wide', 'cs']))
+        cases.append(mk('uapply', [1], [wide, [G.mk_op('remove', t)]], ['wide', 'cs']))
+        cases.append(mk('uapply', [1], [wide, [G.mk_op('add', t, 'v')]], ['wide', 'cs']))
+    cases.append(mk('ugenpatch', [1], [wide, Obj([('l', list(range(1, 12)) + [5, 6]), ('o', Obj([('k', [Obj([('deep', 2)])] * 11)]))])], ['wide', 'cs']))
+    for L in ([63, 64, 65, 127, 128, 129, 255, 256, 257] if quick else list(range(58, 70)) + list(range(124, 132)) + list(range(252, 260))):
+        key = 'k' * (L - 2) + '/'; doc = Obj([(key, [1, Obj([(key, 2)])]), ('z', [1, 2])]); e = '/' + G.esc(key)
+        for p in all_paths(doc): cases.append(mk('ufind', [pstr(p)], [doc], ['pointer-length', 'len=%d' % L]))
+        for t in (e, e + '/1' + e, e + '/1', e + 'x'): cases.append(mk('ugetptr', [1, hx(t.encode())], [doc], ['pointer-length', 'len=%d' % L, 'cs']))
+        for ops in ([G.mk_op('remove', e)], [G.mk_op('replace', e + '/1' + e, 5)], [G.mk_op('move', '/m', frm=e)], [G.mk_op('copy', e + '/1' + e, frm='/z')], [G.mk_op('add', e + 'x', True)], [G.mk_op('test', e + '/0', 1)]):
+            cases.append(mk('uapply', [1], [doc, ops], ['pointer-length', 'len=%d' % L, 'cs']))
+        cases.append(mk('ugenpatch', [1], [doc, Obj([(key, [1, Obj([(key, 3)])]), ('z', [2])])], ['pointer-length', 'len=%d' % L, 'cs']))
+        cases.append(mk('umerge', [1], [doc, Obj([(key, None), (key + 'y', Obj([(key, None), ('n', 1)]))])], ['pointer-length', 'len=%d' % L, 'cs']))
+    # ---- outside JSON (robustness of the correspondence, same observables): duplicate member names, NaN and infinities
+    DK = ['a', 'A', 'b', 'a', 'B', '', 'a/b', '0']
+    def xdoc(d, root=True):
+        r = rng.random()
+        if d <= 0 or (r < 0.3 and not root):
+            k = rng.randrange(8)
+            if k == 2: return float('nan')
+            if k == 3: return rng.choice([float('inf'), -float('inf'), -0.0, 0.0])
+            return G.rand_scalar(rng)
+        if r < 0.55: return [xdoc(d - 1, False) for _ in range(rng.choice([0, 1, 2, 3]))]
+        return Obj([(rng.choice(DK), xdoc(d - 1, False)) for _ in range(rng.choice([0, 1, 2, 3, 4, 5]))])
+    def xt(v, key=None):
+        if isinstance(v, float) and v != v: return node_tokens(T_NUMBER, vi=0, vd=float('nan'), key=key)
+        if isinstance(v, Obj): return node_tokens(T_OBJECT, key=key, children=[xt(e, key=k) for k, e in v])
+        if isinstance(v, list): return node_tokens(T_ARRAY, key=key, children=[xt(e) for e in v])
+        return value_tokens(v, key=key)
+    def raw(kind, args, trees, tags):
+        return Case(' '.join([kind] + [str(a) for a in args] + [' '.join(t) for t in trees]), {'tags': [kind] + tags, 'area': AREA, 'kind': kind})
+    for _ in range(15 if quick else 150):
+        a = xdoc(rng.choice([1, 2, 3])); b = rng.choice([lambda: xdoc(2), lambda: G.shuffled(copy.deepcopy(a), rng), lambda: copy.deepcopy(a)])()
+        if size(a) > MAX_NODES or size(b) > MAX_NODES: continue
+        cs = rng.randrange(2); tg = ['dupkeys-nonfinite'] + cstag(cs)
+        for kind in ('umerge', 'ugenmerge', 'ugenpatch', 'ucompare'): cases.append(raw(kind, [cs], [xt(a), xt(b)], tg))
+        cases.append(raw('usort', [cs], [xt(a)], tg))
+        for p in list(all_paths(a))[:5]: cases.append(raw('ufind', [pstr(p)], [xt(a)], tg[:1]))
+        ns = list(G.nodes(a))
+        for t, _ in some(ns, 4): cases.append(raw('ugetptr', [cs, hx(G.ptr(t).encode('utf-8'))], [xt(a)], tg))
+        for _ in range(4):
+            (t, v), (t2, _) = rng.choice(ns), rng.choice(ns)
+            op = rng.choice([G.mk_op('add', G.ptr(t), 1), G.mk_op('remove', G.ptr(t)), G.mk_op('replace', G.ptr(t), 'r'), G.mk_op('move', G.ptr(t), frm=G.ptr(t2)), G.mk_op('copy', G.ptr(t) + '/a', frm=G.ptr(t2))])
+            cases.append(raw('uapply', [cs], [xt(a), value_tokens([op])], tg))
+            cases.append(raw('uapply', [cs], [xt(a), xt([Obj([('op', 'test'), ('path', G.ptr(t)), ('value', copy.deepcopy(v))])])], tg))
+    # ---- malformed trees (outside every precondition): string nodes without valuestring, members without a name, named array elements, raw nodes, invalid types.
+    #      Where the library dereferences the missing string the case CRASHes and the model must answer NullDeref (project() identifies the two; verdict() ignores these cases)
+    MK = ['a', 'A', 'b', 'B', '', 'a/b', '0']
+    def mnode(d, key, root=True):
+        r = rng.random()
+        if rng.random() < 0.08: key = None if key is not None else 'k'
+        if d <= 0 or (r < 0.3 and not root):
+            k = rng.randrange(9)
+            if k == 0: return node_tokens(T_STRING, vs=None, key=key)
+            if k == 1: return node_tokens(T_RAW, vs='raw', key=key)
+            if k == 2: return node_tokens(rng.choice([0, 3, 255, 24, 96]), key=key)
+            if k == 3: return node_tokens(T_NUMBER, vs='x', vi=1, vd=2.0, key=key)
+            return value_tokens(G.rand_scalar(rng), key=key)
+        if r < 0.55: return node_tokens(T_ARRAY, key=key, children=[mnode(d - 1, None, False) for _ in range(rng.choice([0, 1, 2, 3]))])
+        return node_tokens(T_OBJECT, key=key, children=[mnode(d - 1, k, False) for k in rng.sample(MK, rng.choice([0, 1, 2, 3, 4]))])
+    good = value_tokens(Obj([('a', 1), ('b', [1])]))
+    for _ in range(25 if quick else 250):
+        a = mnode(rng.choice([1, 2, 3]), None); b = rng.choice([lambda: mnode(2, None), lambda: list(a)])()
+        if a.count('N') > MAX_NODES or b.count('N') > MAX_NODES: continue
+        cs = rng.randrange(2); tg = ['malformed'] + cstag(cs)
+        for kind in ('umerge', 'ugenmerge', 'ugenpatch', 'ucompare'): cases.append(raw(kind, [cs], [a, b], tg))
+        cases.append(raw('usort', [cs], [a], tg)); cases.append(raw('ufind', ['-'], [a], tg[:1]))
+        for t in some(['/a', '/0', '/b/0', '/A/a', ''], 2):
+            cases.append(raw('ugetptr', [cs, hx(t.encode())], [a], tg))
+            op = rng.choice([G.mk_op('add', t, 1), G.mk_op('remove', t), G.mk_op('replace', t, 's'), G.mk_op('test', t, 1), G.mk_op('move', t, frm='/b'), G.mk_op('copy', t + '/a', frm='/a')])
+            cases.append(raw('uapply', [cs], [a, value_tokens([op])], tg)); cases.append(raw('uapply', [cs], [good, b], tg))
+    # ---- members added with cJSON_AddItemToObjectCS: constant keys are caller memory (never written, never released by the library)
+    for c in rng.sample(cases, min(len(cases), 500 if quick else 4000)):
+        cases.append(C16.constified(c, rng))
     return cases
 
 def project(c, out):
-    if is_crash(out): return 'CRASH'
+    # a NULL dereference is an error outcome of the model and a crash of the library (cases tagged `malformed` only; elsewhere verdict() reports the crash)
+    if is_crash(out) or out.startswith('MODELERR=NullDeref'): return 'CRASH'
     return out
 
 def verdict(c, out, ctx):
+    if 'malformed' in c.info.get('tags', ()):
+        # outside every precondition: a crash on a missing string and blocks lost when cJSON_AddItemToObject refuses a member without a name (its result is
+        # ignored by merge_patch / generate_merge_patch) are what the code does there -- the model must do the same (project), nothing is judged here
+        return 'no answer: ' + out if (out == 'NOOUTPUT' or 'TIMEOUT' in out) else None
     if is_crash(out): return 'crash / memory error: ' + out
     ap = alloc_problem(out)
     if ap: return ap
